@@ -6,7 +6,7 @@
    IS the parent waker of that poll, so firing it wakes that parent directly. *)
 From Coq Require Import List Arith Bool.
 Import ListNotations.
-Require Import ScanFull InstsFull Pass ObligJoin ObligMZ ObligGroups FireTotal GhostTrace NonSel C11Groups PassProofs PassC01 C04Join Live C08Merge LiveMerge LiveZip.
+Require Import ScanFull InstsFull Pass ObligJoin ObligMZ ObligGroups FireTotal GhostTrace NonSel C11Groups PassProofs PassC01 C04Join Live C08Merge LiveMerge LiveZip LivePass LiveGroups.
 
 (* ---- selective strategy: in every state reached at or after a poll that returned Pending, a signalled child implies that the
         newest parent waker has been woken (for all sizes, child behaviours, histories of polls / wakes through any handle / drop / group ops) *)
@@ -206,6 +206,82 @@ Example C01_rounds_witness :
   map (fun k => results (strip (tr _ (mrnd k (merge_world true [[P; I 1; E]; [P; P; E]] []))))) [1; 2; 3] = [[]; [OSome (Some 0) [1]]; [OSome (Some 0) [1]; ONone]] /\
   map (fun k => results (strip (tr _ (zrnd k (zip_world true [[P; I 1; E]; [I 5; P; E]] []))))) [1; 2; 3] = [[]; [OSome None [1; 5]]; [OSome None [1; 5]; ONone]].
 Proof. vm_compute. split; reflexivity. Qed.
+
+(* ---- race, race_ok, chain: they keep no readiness of their own and poll every child that can still contribute (the current input for chain) in
+        every poll, so their progress does not depend on which wakers fired - only on being polled again, which the theorems C01_race /
+        C01_race_ok / C01_chain above guarantee for a wake-driven executor (every waker a child holds is the caller's own).  Hence the statements
+        are for EVERY schedule of waker invocations (current, stale, repeated) and polls (same or fresh parent waker), Proofs/LivePass.v:
+        [sched ops] = ops contains only waker invocations and polls; [npolls ops] = the number of polls in it;
+        [returns w w'] = the trace of w' is that of w followed by one poll ending with a result. *)
+(* race: children scripted Pending* then Ready (or Pending for ever); if child i0 resolves after k Pending answers, one of the first k + 1 polls
+   returns the race's result *)
+Theorem C01_race_resolves_under_any_schedule scs ops i0 k :
+  i0 < length scs -> allgood scs -> lead (nth i0 scs []) = Some k -> sched ops -> k < npolls ops ->
+  exists ops1 p ops2, ops = ops1 ++ p :: ops2 /\ is_poll p = true /\ npolls ops1 <= k /\
+    let w1 := race_world scs ops1 in
+    finished _ w1 = false /\ dropped _ w1 = false /\ returns rst w1 (p_step rst race_poll r_drops w1 p).
+Proof. exact (race_returns scs ops i0 k). Qed.
+(* race_ok (array / tuple / Vec algorithms, zero futures included): if every child resolves - Ok or Err - after at most b Pending answers, one of
+   the first b + 1 polls returns the result (what it is, is C07) *)
+Theorem C01_race_ok_resolves_under_any_schedule kind scs ops b :
+  (forall i, i < length scs -> goodf (nth i scs []) = true /\ exists k, lead (nth i scs []) = Some k /\ k <= b) -> sched ops -> b < npolls ops ->
+  exists ops1 p ops2, ops = ops1 ++ p :: ops2 /\ is_poll p = true /\ npolls ops1 <= b /\
+    let w1 := race_ok_world kind scs ops1 in
+    finished _ w1 = false /\ dropped _ w1 = false /\ returns kst w1 (p_step kst rok_poll k_drops w1 p).
+Proof. exact (race_ok_returns kind scs ops b). Qed.
+(* chain, from every reachable state: inputs scripted (Pending | Item)* then End; after any schedule ops0, if the chained stream has not ended, one
+   of the next b + 1 polls returns the next item or the end, b = the total number of Pending answers scripted *)
+Theorem C01_chain_next_result_under_any_schedule scs ops0 ops :
+  (forall i, i < length scs -> goods (nth i scs []) = true) -> sched ops0 -> sched ops ->
+  let w := chain_world scs ops0 in finished _ w = false -> tot 0 scs < npolls ops ->
+  exists ops1 p ops2, ops = ops1 ++ p :: ops2 /\ is_poll p = true /\ npolls ops1 <= tot 0 scs /\
+    let w1 := p_world cst chain_poll c_drops w ops1 in
+    finished _ w1 = false /\ dropped _ w1 = false /\ returns cst w1 (p_step cst chain_poll c_drops w1 p).
+Proof. exact (chain_next_result scs ops0 ops). Qed.
+Print Assumptions C01_race_resolves_under_any_schedule. Print Assumptions C01_race_ok_resolves_under_any_schedule. Print Assumptions C01_chain_next_result_under_any_schedule.
+(* the premises are satisfiable, and the bounds are attained: child 1 of the race resolves after 2 Pending answers and the third poll returns 9;
+   race_ok with bound 1 returns the aggregate error in the second poll; the chain with 2 scripted Pending answers needs 3 polls for its first item *)
+Example C01_pass_witness :
+  let P := {| fires := []; answer := APend |} in let R v := {| fires := []; answer := AReady (ROk v) |} in let X e := {| fires := []; answer := AReady (RErr e) |} in
+  let I v := {| fires := []; answer := AItem v |} in let E := {| fires := []; answer := AEnd |} in
+  (allgood [[P; P; P; R 7]; [P; P; R 9]] /\ lead [P; P; R 9] = Some 2 /\
+   map (fun k => results (strip (tr _ (race_world [[P; P; P; R 7]; [P; P; R 9]] (repeat OPollFresh k))))) [2; 3] = [[]; [OVals [9]]]) /\
+  (map (fun k => results (strip (tr _ (race_ok_world 2 [[X 4]; [P; X 5]] (repeat OPollFresh k))))) [1; 2] = [[]; [OErrs [4; 5]]]) /\
+  (tot 0 [[P; E]; [P; I 3; E]] = 2 /\
+   map (fun k => results (strip (tr _ (chain_world [[P; E]; [P; I 3; E]] (repeat OPollFresh k))))) [2; 3; 4] = [[]; [OSome None [3]]; [OSome None [3]; ONone]]).
+Proof. vm_compute. repeat split; try reflexivity. repeat constructor. Qed.
+
+(* ---- FutureGroup / StreamGroup (Proofs/LiveGroups.v: the groups as an instance of ScanFull.Section Live, which speaks about occupied slots and the
+        member a slot currently holds, so that members may come and go): after ANY history of inserts, removes, reserves, polls and wake-ups whose
+        inserted members are scripted (Pending | Item)* then Ready or End without a panic (and, in a FutureGroup, without End: its members are
+        futures), if the group is not empty the wake-driven executor obtains the next output within B rounds, B any bound on the remaining script
+        lengths.  [goodop] is that condition on the history's insert operations; a round invokes the most recent waker of the member of every slot
+        and polls with the same task. *)
+Theorem C01_group_next_result_under_wake_driven_executor stream cap0 ops B :
+  Forall (goodop stream) ops ->
+  let rnd := rounds gst g_slots g_awaited g_member g_handle false false g_order g_pre_exit (fun _ => true) g_finish g_cleanup g_drop (fun _ => false) g_mutate in
+  let w := group_world true stream cap0 ops in
+  finished _ w = false -> dropped _ w = false -> g_len (cs _ w) <> 0 ->
+  (forall m, length (nth m (scripts _ w) []) <= B) -> 1 <= B ->
+  exists r, r < B /\ dropped _ (rnd (S r) w) = false /\ g_retpend _ (rnd (S r) w) = false /\
+            (forall r', r' <= r -> finished _ (rnd r' w) = false) /\
+            exists u o, tr _ (rnd (S r) w) = tr _ (rnd r w) ++ u ++ [EEndR o].
+Proof. exact (group_next_result stream cap0 ops B). Qed.
+Print Assumptions C01_group_next_result_under_wake_driven_executor.
+(* two futures inserted into an empty FutureGroup: the premises hold with B = 3, the second round yields 9 (key 1), the fourth 7 (key 0), the fifth None *)
+Example C01_group_rounds_witness :
+  let P := {| fires := []; answer := APend |} in let R v := {| fires := []; answer := AReady (ROk v) |} in
+  let ops := [OMut 0 0 [P; P; R 7]; OMut 0 0 [P; R 9]] in
+  let rnd := rounds gst g_slots g_awaited g_member g_handle false false g_order g_pre_exit (fun _ => true) g_finish g_cleanup g_drop (fun _ => false) g_mutate in
+  let w := group_world true false 0 ops in
+  Forall (goodop false) ops /\ finished _ w = false /\ dropped _ w = false /\ g_len (cs _ w) = 2 /\
+  map (fun k => results (strip (tr _ (rnd k w)))) [1; 2; 3; 4] = [[]; [OSome (Some 1) [9]]; [OSome (Some 1) [9]; OSome (Some 0) [7]]; [OSome (Some 1) [9]; OSome (Some 0) [7]; ONone]].
+Proof.
+  cbv zeta. split; [|vm_compute; repeat split; reflexivity].
+  assert (Hst : forall (sc: list step), forallb (fun st => match answer st with APend | AReady _ => true | _ => false end) sc = true -> okscript false sc).
+  { intros sc H st Hin. rewrite forallb_forall in H. specialize (H st Hin). destruct (answer st); try discriminate; split; try discriminate; intros _; discriminate. }
+  apply Forall_cons; [split; [apply Hst; reflexivity|reflexivity]|]. apply Forall_cons; [split; [apply Hst; reflexivity|reflexivity]|constructor].
+Qed.
 
 (* non-vacuity: a history that reaches a state satisfying all premises of C01_join: child 0 pends, its waker fires after the poll *)
 Example C01_witness :
